@@ -21,7 +21,7 @@ func XMultiSameMethod() *spec.Spec {
 
 // Extended returns the extended families (everything beyond the documented core combinations).
 func Extended(thorough bool) []*spec.Spec {
-	out := []*spec.Spec{XMultiSameMethod(), XCrossFile(), XTwoServiceFiles(), XTimestampCards(), XTimestampCardsFmt(), XEmptyOrders(), XOneofSiblings(), XSharedMethodHeader(), XQuotedHeaderTexts(), XQuotedAnnotationValues(), XForeignResponse(), XSameNamedNestedEnums(), XOneofVariantShapes(), XInt64Cards(), XHeaderNameShapes(), XParamNameClashes(), XHeaderOverrideShapes(), XUnwrapWrapperShapes(), XProto2Basic(), XSharedTypesAcrossServiceFiles(), XHeaderTypeFormat(), XNestedAnnotated(), XHeaderSpellingTypes(), XUnwrapCycles(), XTwoGoPackages(false), XTwoGoPackages(true), XJSONNames()}
+	out := []*spec.Spec{XMultiSameMethod(), XCrossFile(), XTwoServiceFiles(), XTimestampCards(), XTimestampCardsFmt(), XEmptyOrders(), XOneofSiblings(), XSharedMethodHeader(), XQuotedHeaderTexts(), XQuotedAnnotationValues(), XForeignResponse(), XSameNamedNestedEnums(), XOneofVariantShapes(), XInt64Cards(), XHeaderNameShapes(), XParamNameClashes(), XHeaderOverrideShapes(), XUnwrapWrapperShapes(), XProto2Basic(), XSharedTypesAcrossServiceFiles(), XHeaderTypeFormat(), XNestedAnnotated(), XHeaderSpellingTypes(), XUnwrapCycles(), XTwoGoPackages(false), XTwoGoPackages(true), XJSONNames(), XSameServiceNameTwoPackages(), XOneofUnsetNameClash()}
 	out = append(out, XWellKnownPositions()...)
 	out = append(out, XAnnotationCards()...)
 	out = append(out, XIdentifierShapes()...)
@@ -409,6 +409,35 @@ func XTwoGoPackages(perPackage bool) *spec.Spec {
 			spec.RPC("GetQuote", "Req", c+"Quote", "POST", "/quote"))}}
 	s2 := &spec.Spec{Name: name, Files: []*spec.File{common, api}, PerPackage: perPackage}
 	return withCell(s2, cell, "extended", "valid", "codec", "multifile")
+}
+
+// XOneofUnsetNameClash: a discriminated oneof one of whose variants is spelled like the name the OpenAPI generator derives for
+// the "oneof not set" branch (no_<discriminator>), by field name and by oneof_value, flattened and nested.
+func XOneofUnsetNameClash() *spec.Spec {
+	msgs := []*spec.Message{spec.M("NoAuth", spec.F("reason", "string")), spec.M("Basic", spec.F("user", "string")),
+		spec.M("ConnFlat", spec.F("host", "string"), spec.Msg("no_auth", "NoAuth").In("auth"), spec.Msg("basic", "Basic").In("auth")).
+			WithOneof(&spec.Oneof{Name: "auth", Config: true, Disc: "auth", Flatten: true}),
+		spec.M("ConnNested", spec.F("host", "string"), spec.Msg("no_mode", "NoAuth").In("auth"), spec.Msg("basic", "Basic").In("auth")).
+			WithOneof(&spec.Oneof{Name: "auth", Config: true, Disc: "mode"}),
+		spec.M("ConnValue", spec.F("host", "string"), spec.Msg("anonymous", "NoAuth").In("auth").OV("no_kind"), spec.Msg("basic", "Basic").In("auth")).
+			WithOneof(&spec.Oneof{Name: "auth", Config: true, Disc: "kind", Flatten: true}),
+	}
+	f := &spec.File{Messages: msgs, Services: []*spec.Service{EchoService("UnsetNameService", "ConnFlat", "ConnNested", "ConnValue")}}
+	return withCell(spec.One("x_oneof_unset_name", f), "ext/unit=oneof_variant_named_like_unset_branch", "extended", "valid", "codec")
+}
+
+// XSameServiceNameTwoPackages: the v1 / v2 layout - two files of different proto (and Go) packages that each declare a service of
+// the SAME simple name, v2 importing a type of v1. Generation-level unit: what is emitted for one file (names and bytes) must not
+// depend on whether the other one is generated in the same invocation.
+func XSameServiceNameTwoPackages() *spec.Spec {
+	v1 := &spec.File{Path: "x_samesvc_v1.proto", Package: "vx_samesvc.v1", GoPackage: "verifws/u/x_samesvc/v1;samesvcv1",
+		Messages: []*spec.Message{spec.M("UserRef", spec.F("id", "string")), spec.M("User", spec.F("id", "string"), spec.F("name", "string"))},
+		Services: []*spec.Service{spec.Svc("UserService", "/v1", spec.RPC("GetUser", "UserRef", "User", "GET", "/users/{id}"))}}
+	v2 := &spec.File{Path: "x_samesvc_v2.proto", Package: "vx_samesvc.v2", GoPackage: "verifws/u/x_samesvc/v2;samesvcv2", Imports: []string{v1.Path},
+		Messages: []*spec.Message{spec.M("UserRef", spec.F("id", "string")), spec.M("User", spec.F("id", "string"), spec.F("display_name", "string"), spec.Msg("legacy", ".vx_samesvc.v1.User"))},
+		Services: []*spec.Service{spec.Svc("UserService", "/v2", spec.RPC("GetUser", "UserRef", "User", "GET", "/users/{id}"))}}
+	s := &spec.Spec{Name: "x_samesvc", Files: []*spec.File{v1, v2}}
+	return withCell(s, "ext/unit=same_service_name_two_packages", "extended", "valid", "genonly", "multifile")
 }
 
 // XJSONNames: explicit json_name options - on plain fields of every cardinality, on path and query fields, on the members of a
